@@ -3,6 +3,7 @@ import json
 import re
 
 import vlib
+from checks import translate_tie
 
 PROPERTIES = {
     "C18": {
@@ -45,6 +46,10 @@ PROPERTIES = {
         "design_ref": "5.18",
     },
 }
+
+translate_tie.describe(PROPERTIES, "C18", "(here: identifiers.IsCamelCase = the model's is_camel_case, for every interpretation of "
+                       "unicode.IsDigit/IsUpper; identifiers.IsAlphaChar/IsNumChar; Identifier.Validate and the Validate methods of "
+                       "pkg/dbc's enumeration types)", translate_tie.TIE_NOTE_INT, translate_tie.TIE_NOTE_LOOP)
 
 RULE = ("per generated file and per analyzer one evaluation (ordered diagnostics list: line, column, message kind); "
         "non-trivial = the model owes at least one diagnostic; plus one file-level evaluation (File unchanged, reverse "
@@ -89,6 +94,7 @@ def harness_args(tier, seed):
 
 def run(res, replay=None):
     vlib.proof_stage(res)
+    translate_tie.run_tie(res, ["lintnames"])
     args = harness_args(res.tier, res.seed)
     tmp = None
     if replay:
